@@ -268,6 +268,8 @@ def judge(F, p, i, e, always_some, inv_ok, ptys=None):
                         return key, "D-range(%s+%s<=max; %s)" % (hi(ra), hi(rb), ";".join(sorted(c.used))[:80]), None
                     if b == ("const", ty, "1") and is_counter(a):
                         return key, "D5(A-count: unit-step counter)", None
+                    if ty == "u8" and nibble_add(p, i, c, a, b):
+                        return key, "D13(nibble add: byte + (1 << s) where ((byte >> s) & 0x0f) <= 14 on this path and s <= 4: no carry out of the byte)", None
                     return key, None, "`%s + %s` may overflow %s (operand ranges [%s..%s] + [%s..%s])" % (shape(a), shape(b), ty, ra[0], hi(ra), rb[0], hi(rb))
                 if op == "Sub":
                     rel = c.known_cmp(a, b)
@@ -374,6 +376,73 @@ def has_mask(t, fld):
                 pr = x[1][2] if x[1][0] == "H" else x[1][3]
                 if pr and pr[-1] == fld:
                     return x
+    return None
+
+
+def _strip_casts(t):
+    while isinstance(t, tuple) and t[0] == "cast":
+        t = t[3]
+    return t
+
+
+def _elem(p, t):
+    """(receiver location, index term) if t reads an element through Vec/slice index(_mut)"""
+    t = _strip_casts(t)
+    if isinstance(t, tuple) and t[0] == "load" and t[1][0] == "H" and isinstance(t[1][1], tuple) and t[1][1][0] == "call" and t[1][2] == ():
+        ce = [e for e in p.events if e["ev"] == "call" and e.get("id") == t[1][1][1]]
+        if ce and (ce[0]["q"] or "").split("::")[-1] in ("index", "index_mut") and len(ce[0]["args"]) == 2:
+            return (ce[0]["args"][0], _strip_casts(ce[0]["args"][1]))
+    return None
+
+
+def nibble_add(p, i, c, a, b):
+    """a + (1 << s) on a u8 cannot overflow when the path establishes ((a' >> s) & 0x0f) <= 14 for a read a' of the same element
+    (nothing stored to it in between) and s <= 4: the selected nibble takes the increment without a carry"""
+    b = _strip_casts(b)
+    if not (isinstance(b, tuple) and b[0] == "bin" and b[1] == "Shl" and const_of(b[2]) == 1):
+        return False
+    s_ = _strip_casts(b[3])
+    rs = rng(s_, c, None)
+    if not (rs[0] >= 0 and rs[1] <= 4):
+        return False
+    ea = _elem(p, a)
+    if ea is None:
+        return False
+    for cnd, tr, ev in cond_facts(p):
+        if p.events.index(ev) >= i or not (isinstance(cnd, tuple) and cnd[0] == "bin"):
+            continue
+        for op, x, y in ((cnd[1], cnd[2], cnd[3]), ({"Lt": "Gt", "Gt": "Lt", "Le": "Ge", "Ge": "Le"}.get(cnd[1], cnd[1]), cnd[3], cnd[2])):
+            k = const_of(y)
+            if k is None:
+                continue
+            o = op if tr else {"Eq": "Ne", "Ne": "Eq", "Lt": "Ge", "Ge": "Lt", "Gt": "Le", "Le": "Gt"}.get(op)
+            le14 = (o == "Lt" and k <= 15) or (o == "Le" and k <= 14) or (o == "Ne" and k == 15)
+            if not le14:
+                continue
+            x = _strip_casts(x)
+            if not (isinstance(x, tuple) and x[0] == "bin" and x[1] == "BitAnd"):
+                continue
+            m, sh = (x[3], x[2]) if const_of(x[3]) is not None else (x[2], x[3])
+            if const_of(m) != 15:
+                continue
+            sh = _strip_casts(sh)
+            if not (isinstance(sh, tuple) and sh[0] == "bin" and sh[1] == "Shr" and _strip_casts(sh[3]) == s_):
+                continue
+            eb = _elem(p, sh[2])
+            if eb is not None and eb == ea:
+                j = p.events.index(ev)
+                if not any(e2["ev"] in ("store", "swap", "replace") for e2 in p.events[j:i]):
+                    return True
+    return False
+
+
+def const_of(t):
+    t = _strip_casts(t)
+    if isinstance(t, tuple) and t[0] == "const":
+        try:
+            return int(t[2])
+        except (TypeError, ValueError):
+            return None
     return None
 
 
